@@ -241,7 +241,15 @@ class Index(object):
     def _link(self):
         for ci in self.classes.values():
             for be in ci.base_exprs:
-                r = self.resolve_expr(ci.module, be)
+                r = None
+                # a nested class names its siblings without qualification
+                if isinstance(be, ast.Name):
+                    o = ci.outer
+                    while o is not None and r is None:
+                        r = o.inner.get(be.id)
+                        o = o.outer
+                if r is None:
+                    r = self.resolve_expr(ci.module, be)
                 if isinstance(r, ClassInfo):
                     ci.bases.append(r)
 
